@@ -25,7 +25,7 @@ package limited_rationality
 //@ func GetAlternativesSearchOrder
 //@   property C01 C09 C11 C13 C12 C14
 //@   fnparam generator ensures 0.0 <= result && result < 1.0
-//@   ensures [C09 considered_untouched] unchanged(dm.ConsideredAlternatives) && unchanged(dm.NotConsideredAlternatives)
+//@   ensures [considered_untouched] unchanged(dm.ConsideredAlternatives) && unchanged(dm.NotConsideredAlternatives)
 //@   ensures [current_choice_first] len(currentChoiceOf(params)) > 0 ==> result0.Id == currentChoiceOf(params)
 //@             && (exists j int :: 0 <= j && j < len(dm.ConsideredAlternatives) + len(dm.NotConsideredAlternatives) && result0 == model.altAt(dm.ConsideredAlternatives, dm.NotConsideredAlternatives, j))
 //@   ensures [rest_are_considered] forall k int :: 0 <= k && k < len(result1) ==> exists j int :: 0 <= j && j < len(dm.ConsideredAlternatives) && result1[k] == dm.ConsideredAlternatives[j]
